@@ -240,6 +240,47 @@ def run(rep, tier):
     newidx = [e for e in setidx if any(o[0] == "call" and o[1].name.endswith("allocated_idx_end") for a in e.args[1:] for o in up.slice_back_op(a))]
     inherit = [e for e in setidx if any(o[0] == "call" and o[1].name.endswith("FieldEntry::idx") for a in e.args[1:] for o in up.slice_back_op(a))]
     rep.ob("R13.4", "index-sources|upgrade_with", bool(newidx) and bool(inherit), "a surviving field inherits its persisted index; a new field takes an index derived from the high-water mark (never a removed field's index)", up.file + ":%d" % up.line)
+    # ------------------------------------------------------------------ R13.5 the value walkers descend into the same composites
+    rep.rule("R13.5", "the read-side walkers over (FieldType, FieldValue) - normalize_at and prune_undeclared_at - recurse into the same composites "
+                      "(array elements, keyed map values, wildcard map values, Option payload): what one repairs the other must reach", floor=3)
+    from .c16 import arm_regions
+    sigs = {}
+    for name in ("normalize_at", "prune_undeclared_at"):
+        w = prog.fn(FT + "::" + name)
+        rep.saw(w, len(w.events))
+        regs = arm_regions(w, FT)
+        sig = set()
+        for v in ("Array", "Map", "Option"):
+            reg = regs.get(v, set())
+            rec = [e for e in w.calls() if e.cid == w.id and e.block in reg]
+            if v != "Map":
+                if rec:
+                    sig.add(v)
+                continue
+            wc = [e for e in w.calls_named(r"anda_db_schema::field::as_wildcard_map$") if e.block in reg or True]
+            some_t, none_t = set(), set()
+            for c_ in wc:
+                for (sb, adt, m) in w.outcome_edges(c_.dest.l):
+                    if adt == "core::option::Option" and "Some" in m and "None" in m:
+                        some_t.add(m["Some"])
+                        none_t.add(m["None"])
+            wild = w.reachable_from(sorted(some_t), avoid=none_t) if some_t else set()
+            keyed = w.reachable_from(sorted(none_t), avoid=some_t) if none_t else set()
+            for e in rec:
+                if e.block in wild and e.block not in keyed:
+                    sig.add("Map:wildcard-values")
+                elif e.block in keyed and e.block not in wild:
+                    sig.add("Map:keyed-values")
+                else:
+                    sig.add("Map:values")
+        sigs[name] = sig
+    want = {"Array", "Map:wildcard-values", "Map:keyed-values", "Option"}
+    for name, sig in sigs.items():
+        rep.ob("R13.5", "descends|%s" % name, sig == want,
+               "%s recurses into %s; the read-side walkers must all descend into %s (a composite one of them skips keeps stale or "
+               "unnormalised data that validation then rejects)" % (name, sorted(sig), sorted(want)), FT + "::" + name)
+    rep.ob("R13.5", "siblings-agree|normalize_at~prune_undeclared_at", sigs["normalize_at"] == sigs["prune_undeclared_at"],
+           "normalize_at descends into %s, prune_undeclared_at into %s" % (sorted(sigs["normalize_at"]), sorted(sigs["prune_undeclared_at"])), FT)
     return rep.finish(EXPLAIN)
 
 
